@@ -89,6 +89,8 @@ inductive Obj
 
 structure St where
   objs : Std.HashMap Nat Obj := {}
+  /-- the model's file system: absolute path ↦ handle of the on-disk filter whose file lives there -/
+  fs : List (List String × Nat) := []
 
 def St.get (st : St) (h : Nat) : Option Obj := st.objs[h]?
 
